@@ -25,12 +25,13 @@ Definition np_row_ok (r : np_row) : bool :=
          | First p => np_path_eqb p (np_expected_path r)
          end).
 
-(* declared time-independent <-> written as `messages[0].x if len(messages) > 0 else ...` *)
+(* for the rows whose source the translator is sure of: declared time-independent <-> written as
+   `messages[0].x if len(messages) > 0 else ...`; Opaque rows make no claim *)
 Definition np_row_ntd_ok (r : np_row) : bool :=
   match r_src r with
   | First _ => r_ntd r
   | Each _ => negb (r_ntd r)
-  | Opaque => negb (r_ntd r)
+  | Opaque => true
   end.
 
 (* every key a class declares not_time_dependent is one of its outputs *)
